@@ -1,3 +1,4 @@
+import Proofs.BfsComplete
 import Proofs.Conservation
 import Properties.C03
 /-!
@@ -81,5 +82,22 @@ theorem balance_readonly (b : Book) (tip : Vertex) (a : Addr) :
 /-- Non-vacuity on the reachable example ledger: w received 10, spent 3. -/
 example : inflow "w" (walk Props.C03.b2 Props.C03.v1) = 10000000000000000000 ∧
     outflow "w" (walk Props.C03.b2 Props.C03.v1) = 3000000000000000000 := by decide
+
+/-- **Single tip: the balance is over the whole live ledger.** When the ledger has one tip, the reported
+balance is checkpointed funds + everything the wallet received − everything it sent over *all* live vertices
+(the ancestor walk from the tip is complete: `ancestors` is exactly the set of strict ancestors, and in a
+finite acyclic graph every vertex reaches a tip). -/
+theorem balance_over_whole_ledger {b : Book} (r : Reachable b) (tip : Vertex) (ht : tip ∈ b.verts) (hl : b.leaves = [tip])
+    (a : Addr) (m : Melange) (h : b.calculateBalance tip a = .ok m) :
+    val m + outflow a b.verts = cpVal b a + inflow a b.verts ∧ Canon m := by
+  have hnd : (b.verts.map (·.hash)).Nodup := by
+    have := r.inv.idx.nodupV
+    unfold allV at this
+    rw [List.map_append] at this
+    exact (List.nodup_append.mp this).1
+  have p := walk_perm_of_single_tip b r.edgeInv hnd tip ht hl
+  have := balance_exact r tip ht a m h
+  rw [inflow_perm p, outflow_perm p] at this
+  exact this
 
 end Props.C06
